@@ -821,6 +821,19 @@ where
                 vals.push(*v_i);
             }
 
+            // Same shape requirement as in `check`: one (L, R) pair per halving round
+            let log_d = ark_std::log2(vk.supported_degree() + 1) as usize;
+            if p.l_vec.len() != p.r_vec.len() || p.l_vec.len() != log_d {
+                return Err(Error::IncorrectInputLength(
+                    format!(
+                        "Expected proof vectors to be {:}. Instead, l_vec size is {:} and r_vec size is {:}",
+                        log_d,
+                        p.l_vec.len(),
+                        p.r_vec.len()
+                    )
+                ));
+            }
+
             let check_poly =
                 Self::succinct_check(vk, comms.into_iter(), *point, vals.into_iter(), p, sponge);
 
